@@ -157,7 +157,13 @@ def c04_history(e1: int, p1: int, g1: int, e2: int, p2: int, h1: int, h2: int, s
         if S.get('single') and tgt != 0:
             return rt.skip()
         if sf >= 0:
-            k.spawn_failures.add(k.spawn_attempts + sf)
+            if S.get('sfkind') == 'preexec':
+                # the child is forked but its pre-exec step (setrlimit / setgid / setuid) fails: subprocess reports that as
+                # SubprocessError, which is not an OSError
+                import subprocess
+                k.spawn_errors[k.spawn_attempts + sf] = subprocess.SubprocessError('Exception occurred in preexec_fn.')
+            else:
+                k.spawn_failures.add(k.spawn_attempts + sf)
         if S.get('dmax', 0) > 0 and d > 0:
             k.injections.append({'at_call': k.calls + d, 'victim': ('nth', v), 'status': core.status_signal(9)})
         sc = Sched(w, 'a' if tgt == 0 else 'b')
@@ -299,6 +305,8 @@ def plan(tier):
         for hook in (('before', 'after') if q else ('before', 'after', 'both')):
             sh.append({'e1': e, 'K': 1, 'n0': 1, 'beh': 0, 'hmax': 5, 'hook': hook, 'sfmax': 1 if q else 3})
             sh.append({'e1': e, 'K': 1, 'n0': 1, 'beh': 2, 'hmax': 5, 'hook': hook})
+    for e in (1, 3, 4, 5, 8):        # events that spawn, with a failure in the child's pre-exec step (SubprocessError) at the n-th attempt
+        sh.append({'e1': e, 'K': 1, 'n0': 1, 'beh': 0, 'sfmax': 1 if q else 3, 'sfkind': 'preexec'})
     for e in (2, 3, 5, 7):           # decr, set numprocesses, reload, stop with graceful_timeout 0 and workers that ignore the stop signal
         sh.append({'e1': e, 'K': 1, 'n0': 2, 'beh': 2, 'gt': 0})
     sh.append({'e1': 2, 'K': 1, 'n0': 1, 'beh': 2, 'single': True})
@@ -309,7 +317,7 @@ def plan(tier):
         Cond('c04_history', shards=sh, budget=200 if q else 1500, twins=2,
              bounds={'e1,e2': 'S: %d-event menu' % len(EVENTS), 'p': 'R[-1,2]', 'g1': 'S{now, quiescence}', 'tgt': 'S{watcher a, watcher b}',
                      'h1,h2': 'S: before_spawn / after_spawn outcome scripts (true/false/raise for the next call x afterwards)',
-                     'sf': 'R[-1,sfmax] index of the failing exec', 'd': 'R[0,dmax] kernel call of an injected death', 'beh': 'S{obey, stubborn}', 'gt': 'S: graceful_timeout {0.2 s, 0}'}),
+                     'sf': 'R[-1,sfmax] index of the failing exec (ENOENT, or SubprocessError from the pre-exec step)', 'd': 'R[0,dmax] kernel call of an injected death', 'beh': 'S{obey, stubborn}', 'gt': 'S: graceful_timeout {0.2 s, 0}'}),
         Cond('c04_step', shards=step, budget=200 if q else 1200, twins=2,
              bounds={'np': 'S[0,2]', 'm': 'S[0,2]', 's_i': 'S{alive, zombie, gone}', 'e': 'S: shard key over the event menu', 'd': 'R[0,dmax]'}),
     ]
